@@ -5,6 +5,7 @@ import (
 	"encoding/json"
 	"errors"
 	"fmt"
+	"io"
 	"math"
 	"net"
 	"sync"
@@ -1017,6 +1018,7 @@ type Result struct {
 func Run(p *Program) (res Result) {
 	restore := p.Set.Apply()
 	defer restore()
+	ScrubPools()
 	rt := &Rt{}
 	res.Rt = rt
 	writers := []*RecWriter{{}}
@@ -1066,4 +1068,18 @@ func Run(p *Program) (res Result) {
 		}
 	}
 	return
+}
+
+// ScrubPools makes a program's behaviour independent of what earlier programs left in
+// zerolog's event pool: it takes a batch of pooled events through a plain logger (which
+// resets their Go context) and returns them.
+func ScrubPools() {
+	l := zerolog.New(io.Discard)
+	var evs [48]*zerolog.Event
+	for i := range evs {
+		evs[i] = l.Log()
+	}
+	for _, e := range evs {
+		e.Send()
+	}
 }
